@@ -331,8 +331,18 @@ func resp3To2(val3 respValue) (value respValue) {
 	switch v := val3.data.(type) {
 	case respSimpleString, respErrorString, respInt, respBulkString:
 		value.data = v
-	case respDouble, respBool, respBigNumber, respVerbatimString:
+	case respDouble, respBigNumber:
 		value.data = respSimpleString(fmt.Sprintf("%s", v))
+	case respBool:
+		// RESP2 has no boolean: 1 or 0
+		if v {
+			value.data = respInt(1)
+		} else {
+			value.data = respInt(0)
+		}
+	case respVerbatimString:
+		// the text alone, as a bulk string: it may contain line breaks (INFO, CLIENT LIST)
+		value.data = respBulkString(v.text)
 	case respBlobError:
 		value.data = respErrorString(v.String())
 	case respMap:
